@@ -131,7 +131,7 @@ func classifyRuntime(err error) string {
 		return "invalid_arg_type"
 	case strings.HasPrefix(msg, "not an array:"):
 		return "not_an_array"
-	case strings.Contains(msg, "integer divide by zero"):
+	case strings.Contains(msg, "integer divide by zero"), strings.HasPrefix(msg, "division by zero"):
 		return "div_by_zero"
 	case strings.Contains(msg, "index out of range") && strings.Contains(msg, "runtime error"):
 		return "go_index_panic" // operand stack exhausted, bytes(-1), ...
